@@ -63,6 +63,21 @@ Theorem C06_redirect_only_vertex : forall vid vref i,
 Proof. exact redirect_spec. Qed.
 Print Assumptions C06_redirect_only_vertex.
 
+(* _correctValInNode (optional parameters of lights, contributors, sampler filters): after the call
+   an independent reader finds the child iff the value is not None, with the value's text; every
+   other child is untouched (same elements, same order, same text) *)
+Theorem C06_optional_children : forall t value after kids,
+  (length (filter (is_tag ns t) kids) <= 1)%nat ->
+  read_opt t (correct_val t value after kids) = value.
+Proof. exact optional_child_value. Qed.
+Print Assumptions C06_optional_children.
+
+Theorem C06_optional_children_others : forall t value after kids t', t' <> t ->
+  map xuid (filter (is_tag ns t') (correct_val t value after kids)) = map xuid (filter (is_tag ns t') kids) /\
+  map xtext (filter (is_tag ns t') (correct_val t value after kids)) = map xtext (filter (is_tag ns t') kids).
+Proof. exact optional_child_others. Qed.
+Print Assumptions C06_optional_children_others.
+
 (* the managed libraries of the file hold exactly the emissions of the model's objects, in order *)
 Theorem C06_managed_libraries_exact : forall arr d,
   lib_kids a_library_geometries (emit_doc arr d) = map (emit_geometry arr) (d_geometries d) /\
